@@ -1030,9 +1030,11 @@ void Document::accept(DocumentVisitor& visitor)
 {
     visitor.visitDocBefore(*this);
     visit(visitor, global.frame);
-    for (auto& templ : templates)
-        visitTemplate(templ, visitor);
+    // The dynamic templates first: the others call their functions (forall (p : T) p.f() > 0), and what a function
+    // reads and writes is known only once the type checker has visited it.
     for (auto& templ : dyn_templates)
+        visitTemplate(templ, visitor);
+    for (auto& templ : templates)
         visitTemplate(templ, visitor);
 
     for (size_t i = 0; i < global.frame.get_size(); ++i) {
